@@ -42,6 +42,8 @@ ASSUME = [
     "throw / hang) and top library frame are parsed from the sanitizer / libc++abi text (observation, no expectation in the harness)",
     "termination = the call returns within Tmo(S, ev) = 2 s + (frames x chips x core cost)/100 ms of CPU time (ITIMER_PROF), 10x that of wall time",
     "fixed inputs: banks b1 b2, songs s1 s2 and rejected files encoded by lib/gen_api.py, mirrored by ApiSurface!Assets",
+    "two builds of the same tree: ASan+bounds at -O1 (all histories) and at -O0 (witnesses, emulator-switch sweeps, a ninth of the other sweeps): "
+    "a defect class that rests on undefined behaviour is reported when either build exhibits it (the replay names the build)",
     "the sample rate of opn2_init is drawn from {8000, 44100, 53267, 192000}; the VGM dumper core (id 7) is selected but never rendered with",
     "TLC 1.8 evaluates ApiSurface/ApiSurfaceTrace correctly; JSON traces round-trip 32-bit integers (INT_MIN is the token -2147483647)",
 ]
@@ -80,7 +82,7 @@ def run_models(q):
                 extra=("INVARIANT NoBad\n" if rep else "ACTION_CONSTRAINT Report\n") + "CONSTRAINT DepthBound\nVIEW View")
         r = vc.run_tlc("ApiSurfaceMC", cfg=c, timeout=2400, heap="8g", workers=2 if q else 6, tag="ApiMC-" + ("rep" if rep else "asis"),
                        extra=["-noGenerateSpecTE"])
-        r.scope = {"calls": depth, "alphabet": 68, "model": "repaired guards" if rep else "guards as written"}
+        r.scope = {"calls": depth, "alphabet": 61, "model": "repaired guards" if rep else "guards as written"}
         return r
 
     def sweep():
@@ -193,6 +195,7 @@ def check_c03(pid, tier, replay):
 
     # ---- leg A + inputs
     res = run_models(q)
+    vc.log("[C03] model phase %.1fs: %s" % (time.time() - t0, ", ".join("%s %.1fs" % (k, r.wall) for k, r in sorted(res.items()))))
     for k, r in res.items():
         if not r.ok and not r.violation:
             print("INFRA: TLC run %s failed (rc=%s): %s" % (k, r.rc, r.out[-1500:]))
@@ -222,11 +225,12 @@ def check_c03(pid, tier, replay):
 
     # ---- legs B and C
     failures, counters, stats = vtrace.run_histories(pid, HARNESS, TRACE, shuffled, nchunks=jobs(), extra_args=(assets,), tlc_timeout=1500, htimeout=1500)
+    vc.log("[C03] main pass done at %.1fs (TLC %.1fs summed over chunks)" % (time.time() - t0, stats["tlc_wall"]))
     if stats["infra"]:
         print("INFRA:", stats["infra"][0][:2000])
         return 3
     # second build: witnesses + short sweep histories on the unoptimised library
-    small = [h for h in parts[0][1]] + [h for h in parts[1][1] if len(h) <= 8]
+    small = [h for h in parts[0][1]] + [h for i, h in enumerate(parts[1][1]) if h[-1]["e"] == "switchEmulator" or i % 9 == 0]
     o0exe = o0.result()
     if str(o0exe).startswith("FAILED"):
         print("NOTE the unoptimised build is not available (%s): second pass skipped" % o0exe)
@@ -236,6 +240,7 @@ def check_c03(pid, tier, replay):
         if s2["infra"]:
             print("INFRA:", s2["infra"][0][:2000])
             return 3
+    vc.log("[C03] second pass done at %.1fs" % (time.time() - t0))
     for f in f2:
         f.history += len(shuffled)
     all_hist = shuffled + small
